@@ -51,7 +51,9 @@ class CHECK(core.Check):
                   "after the sweep), C03_loop_exception_is_from_send are full; C03_sweep_aborts_each_once_partial is partial (region "
                   "sweepRaised = a non-Exception BaseException in the sweep) with C03_counterexample_sweep_crash for known finding D03b; "
                   "C03_sweep_survives_exceptions is full (fix D03a), C03_old_sweep_stopped_at_exception documents the code before it. Concrete framers: C03_loopEnv_faithful, "
-                  "C03_abort_exits_bottom_up, C03_stop_exits_bottom_up, C03_entered_empty_at_return are full.")
+                  "C03_abort_exits_bottom_up, C03_stop_exits_bottom_up, C03_entered_empty_at_return, C03_start_enters_first_outline, "
+                  "C03_exits_bottom_up_every_visit (in every reached state the entered frames are none or the outline of a frame of the "
+                  "program, so exits are bottom-up on every visit, not only the first) are full.")
     LEVEL_NOTE = ("Trusted: Lean kernel; axioms propext, Classical.choice, Quot.sound; the hand transcription of skedding.py and of the "
                   "framer/frames subset validated by the correspondence over every crash point; the crash-injection doubles.")
 
@@ -88,6 +90,12 @@ class CHECK(core.Check):
                         target = rng.randrange(nf) if rng.random() < 0.15 else rng.choice([k for k in range(nf) if k != j])
                         fr["tr"].append([rng.randint(1, 3), target])
                 frames.append(fr)
+            if nf >= 3 and rng.random() < 0.5:
+                # a round trip: a top-level frame with an under frame is left for another top-level frame and
+                # re-entered later (every visit must enter top-down and exit bottom-up)
+                frames[0]["over"], frames[1]["over"], frames[2]["over"] = None, 0, None
+                frames[1]["tr"] = [[rng.randint(1, 2), 2]]
+                frames[2]["tr"] = [[rng.randint(1, 2), rng.choice([0, 1])]]
             framers.append({"sched": "active" if rng.random() < 0.8 else "inactive", "order": rng.choice(["front", "mid", "mid", "back"]),
                             "period": str(Fraction(rng.choice([0, 0, 0, 1, 2, 5, 7]), 8)), "first": rng.randrange(nf), "frames": frames})
         K = rng.randint(1, 5)
@@ -270,6 +278,11 @@ class CHECK(core.Check):
                 if i in dead:
                     continue
                 if ctx == "e":
+                    # frames are entered top-down: the frame above must be the innermost entered one
+                    over = case["framers"][i]["frames"][f].get("over")
+                    if (stack[i][-1:] or [None])[0] != over and not (over is None and not stack[i]):
+                        return "framer %d enters frame %d (over %s) while its innermost entered frame is %s" % (
+                            i, f, over, stack[i][-1:] or None)
                     stack[i].append(f)
                 elif ctx == "x":
                     if not stack[i] or stack[i][-1] != f:
